@@ -275,8 +275,12 @@ def gen_climatology(rng, maxn=10):
             lo, hi = PERIOD_RANGE[period]
             a = rng.randint(lo, hi)
             b = rng.randint(lo, hi)
-            if rng.random() < 0.5:
+            r_ = rng.random()
+            if r_ < 0.35:
                 a, b = lo, hi
+            elif r_ < 0.6 and period not in ("year",):
+                # all but the LAST unit of the cycle (day 1..365, week 1..52, month 1..11, …): looks like a catch-all, is not one
+                a, b = lo, hi - 1
             m["tspan"] = [F(a), F(b)]
             m["period"] = period
             prev = [q for q in members if q["period"] is not None and q["period"] != period]
